@@ -57,7 +57,7 @@ SNIPPETS = [
     "np.roll(np.array([1, 2, 3, 4]), 1)", "np.roll(np.array([True, False, False]), -1)", "np.roll(np.array([]), 2)", "np.roll(np.arange(5), 7)",
     "list(pd.DataFrame({'b': [1], 'a': [2], 'c': [3]}).columns.intersection(['c', 'zz', 'b']))", "list(pd.DataFrame({'b': [1], 'a': [2], 'c': [3]}).columns.difference(['a']))",
     "pd.DataFrame({'b': [1], 'a': [2]}).columns.isin(['a', 'q'])",
-    "_v1()", "_v2()", "_v3()", "np.negative(np.array([1, -2]))", "np.negative([1.5, 0.0])", "np.negative(np.array([0, 1, 255], dtype=np.uint8)).tolist()", "_fl()",
+    "_v1()", "_v2()", "_v3()", "pd.Series(True, index=[3, 4, 5]).tolist()", "(pd.Series(True, index=pd.DataFrame({'a': [1.0, 2.0]}).index) & (pd.DataFrame({'a': [1.0, 2.0]})['a'] > 1)).tolist()", "pd.Series(0.5, index=range(2)).tolist()", "np.negative(np.array([1, -2]))", "np.negative([1.5, 0.0])", "np.negative(np.array([0, 1, 255], dtype=np.uint8)).tolist()", "_fl()",
     "np.setdiff1d(np.array([5, 1, 3, 1]), np.array([3]))", "np.setdiff1d(np.array([2, 4]), np.array([]))", "np.setdiff1d(np.array([], dtype=int), np.array([1]))",
     "np.intersect1d(np.array([5, 1, 3, 1]), [1, 5, 9])", "np.union1d(np.array([3, 1]), [2, 3])", "np.bincount(np.array([0, 2, 2, 5]))", "np.bincount(np.array([1]), minlength=4)",
     "np.bincount(np.array([], dtype=int))", "np.cumsum(np.bincount(np.array([0, 0, 2])))",
